@@ -492,7 +492,9 @@ class UidSearchCommand(SearchCommand):
     @classmethod
     def parse(cls, buf: memoryview, params: Params) \
             -> tuple[UidSearchCommand, memoryview]:
-        ret, buf = super().parse(buf, params.copy(uid=True))
+        # only the numbers returned are UIDs: the search keys, including
+        # sequence sets, are interpreted as with SEARCH (RFC 3501 6.4.8)
+        ret, buf = super().parse(buf, params)
         if not isinstance(ret, UidSearchCommand):
             raise TypeError(ret)
         return ret, buf
